@@ -201,4 +201,18 @@ theorem interp_validMono : ValidMono interpMatcher := by
     simp only [Bool.and_eq_true] at h
     exact h.1
 
+/-! `left -> right` -/
+theorem when_false (fuel : Nat) (env : Env) (l r : Node) (s : ES)
+    (h : ((evalM fuel env l s).1 == some true) = false) :
+    (evalWhen (fuel + 1) env l r s).2 = (evalM fuel env l s).2 := by
+  unfold evalWhen
+  simp only [h, Bool.false_eq_true, if_false]
+  split <;> rfl
+
+theorem when_true (fuel : Nat) (env : Env) (l r : Node) (s : ES)
+    (h : ((evalM fuel env l s).1 == some true) = true) (ho : overridesFrozen l = false) :
+    (evalWhen (fuel + 1) env l r s).2 = (evalM fuel env r (evalM fuel env l s).2).2 := by
+  unfold evalWhen
+  simp only [h, if_true, ho, Bool.false_eq_true, if_false]
+
 end Proofs.Matcher
